@@ -93,3 +93,5 @@ Proof.
     + subst. rewrite IH. intuition congruence.
     + rewrite IH. intuition congruence.
 Qed.
+
+Definition nilb {A} (l : list A) : bool := match l with [] => true | _ => false end.
